@@ -151,6 +151,16 @@ def step (st : St) (op res : List String) : Except String (St × List String) :=
   | "S" :: _ => .ok (st, [])
   | [ts, "acq", role, kind] =>
     match ts.toNat?, parseAcc role kind with
+    | some t, some (.shard i true a) =>
+      -- inside `clear` every shard acquisition is a model step of its own (the lock stays held)
+      match st.s.pc t with
+      | .clr _ _ =>
+        if a != st.s.amode t then .error s!"model=footprint [shard{i}:{if st.s.amode t then "wa" else "w"}] impl-footprint=[{showAcc (.shard i true a)}]"
+        else
+          match Fv.Cache.Conc.step st.c st.s t (.clrAcq i) with
+          | some s' => .ok ({ st with s := s' }, ["clear-acquires-shard"])
+          | none => .error s!"model=step-not-enabled clrAcq {i} pc={showPC (st.s.pc t)}"
+      | _ => .ok ({ st with evs := setL st.evs t (getL st.evs t ++ [.shard i true a]) }, ["acq-shard"])
     | some t, some a => .ok ({ st with evs := setL st.evs t (getL st.evs t ++ [a]) }, [s!"acq-{showAcc a |>.takeWhile (fun ch => !ch.isDigit && ch != ':')}"])
     | some _, none => .error s!"model=never-takes-this-lock role={role} kind={kind}"
     | none, _ => .error "bad-op"
@@ -210,7 +220,12 @@ def step (st : St) (op res : List String) : Except String (St × List String) :=
       | "oiMap", ["occ", v] => doStep st t .oiMap res "or_insert-occupied" (pcIs (fun p => some p == v.toNat?.map (fun x => PC.done (some x))))
       | "oiEv", _ => doStep st t .oiEv res "or_insert-event-push"
       | "oiAdd", _ => doStep st t .oiAdd res "or_insert-add-cost"
-      | "clear", _ => doStep st t .clear res (if pendingAdj st.c st.s ≠ 0 then "clear-overlapping-inflight" else "clear")
+      | "clear", _ =>
+        -- transcripts without acquisition lines (conch v1): take the shard locks silently, in order
+        let st := if st.strict then st else
+          (List.range st.c.nShards).foldl (fun (acc : St) i =>
+            match Fv.Cache.Conc.step acc.c acc.s t (.clrAcq i) with | some s1 => { acc with s := s1 } | none => acc) st
+        doStep st t .clear res (if pendingAdj st.c st.s ≠ 0 then "clear-overlapping-inflight" else "clear")
       | "mLock", _ => doStep st t .mLock res "maint-lock"
       | "recv", _ =>
         doStep st t .recv res (match st.s.pc t with | .mDrain m _ _ => (if (st.s.events m.sh).isEmpty then "recv-empty" else "recv-event") | _ => "recv")
